@@ -8,7 +8,7 @@ use std::sync::{Arc, Mutex};
 use verif_harness::util::{catch, quiet_panics, Rng};
 use verif_harness::workspace;
 
-const PRELUDE: &str = "pub type T { T(a: Int, b: String) }\npub type Box(x) { Box(inner: x) }\nfn id(x) { x }\nfn apply(x: a, f: fn(a) -> b) -> b { f(x) }\nfn map(l: List(a), f: fn(a) -> b) -> List(b) { case l { [] -> [] [h, ..t] -> [f(h), ..map(t, f)] } }\nfn add(a: Int, b: Int) -> Int { a + b }\nfn mk_ok(x: a, e: b) -> Result(a, b) { Ok(x) }\nfn mk_err(x: a, e: b) -> Result(a, b) { Error(e) }\n";
+const PRELUDE: &str = "pub type T { T(a: Int, b: String) }\npub type Box(x) { Box(inner: x) }\nfn id(x) { x }\nfn apply(x: a, f: fn(a) -> b) -> b { f(x) }\nfn map(l: List(a), f: fn(a) -> b) -> List(b) { case l { [] -> [] [h, ..t] -> [f(h), ..map(t, f)] } }\nfn add(a: Int, b: Int) -> Int { a + b }\nfn mk_ok(x: a, e: b) -> Result(a, b) { Ok(x) }\nfn mk_err(x: a, e: b) -> Result(a, b) { Error(e) }\npub type M { M(Int, key: String, value: Float) }\nfn wrap(item) { item }\nfn item() { wrap(1) }\n";
 
 fn first_code_block(markup: &str) -> String {
     let mut it = markup.split("```");
@@ -132,8 +132,8 @@ fn main() {
                         let is_label = next == ":" && (prev == "(" || prev == ",") && !is_def;
                         let is_field = prev == ".";
                         let exp: Option<&str> = if is_def || is_label || is_field { None }
-                            else if ["id", "apply", "map", "add", "mk_ok", "mk_err"].contains(&s.as_str()) || (s.len() > 1 && s.starts_with('g') && s[1..].chars().all(|c| c.is_ascii_digit())) { Some("Function") }
-                            else if s == "T" || s == "Box" { Some("Constructor") }
+                            else if ["id", "apply", "map", "add", "mk_ok", "mk_err", "wrap"].contains(&s.as_str()) || (s.len() > 1 && s.starts_with('g') && s[1..].chars().all(|c| c.is_ascii_digit())) { Some("Function") }
+                            else if s == "T" || s == "Box" || s == "M" { Some("Constructor") }
                             else if let Some(ty) = binder_ty.get(s.as_str()) { if ty.starts_with("fn(") { Some("Function") } else { None } }
                             else { None };
                         let got = hl.iter().find(|h| usize::from(h.range.start()) == *off && usize::from(h.range.end()) == off + s.len()).map(|h| format!("{:?}", h.tag));
